@@ -152,7 +152,8 @@ def _int_guard_semantics(expr: ast.AST, reject_label: str, subject: str) -> Opti
 
 class GuardOb:
     def __init__(self, fn, label, wording, inputs_any=(), inputs_all=(), eps=False, loop=False, iterates=None,
-                 min_accept=None, subject=None, module=None):
+                 min_accept=None, subject=None, module=None, container_type=None):
+        self.container_type = container_type  # the guard is a membership test in a value of this class
         self.fn = fn
         self.label = label
         self.wording = wording
@@ -185,6 +186,20 @@ def check_guard(ctx, res, ob: GuardOb, rule="R15.1", prop_res=None) -> bool:
         if ob.eps and not any(eps_aware(ctx, fi, x) for x in visited):
             rejected_detail.append("`%s`: evaluation never reads get_eps()" % txt(e)[:50])
             continue
+        if ob.container_type is not None:
+            okc = False
+            seen_t = set()
+            for x in visited:
+                for c in ast.walk(x):
+                    if isinstance(c, ast.Compare) and len(c.ops) == 1 and isinstance(c.ops[0], (ast.In, ast.NotIn)):
+                        ty = set(map(str, ctx.types.types_at(fi, c.comparators[0])))
+                        seen_t |= ty
+                        if ty == {ob.container_type}:
+                            okc = True
+            if not okc:
+                rejected_detail.append("`%s`: tests membership in %s, the statement is about the %s" % (
+                    txt(e)[:50], sorted(seen_t) or "nothing", ob.container_type))
+                continue
         if ob.min_accept is not None:
             sem = _int_guard_semantics(e, rej, ob.subject)
             if sem is None:
@@ -295,7 +310,7 @@ EXPLICIT = [
             inputs_any={"pts"}, min_accept=3, subject="points"),
     GuardOb("ConvexPolygon._check_and_sort_points", "coplanarity of every vertex",
             "a polygon with non-coplanar vertices must be rejected", inputs_all={"point", "self.plane"},
-            eps=True, loop=True, iterates={"self.points"}),
+            eps=True, loop=True, iterates={"self.points"}, container_type="Plane"),
     GuardOb("ConvexPolygon.Parallelogram", "dependent edge vectors", "a parallelogram with dependent edge vectors must be rejected",
             inputs_all={"v1", "v2"}, eps=True),
     GuardOb("ConvexPolyhedron.Parallelepiped", "dependent v1, v2", "a parallelepiped with dependent edge vectors must be rejected",
@@ -305,7 +320,7 @@ EXPLICIT = [
     GuardOb("ConvexPolyhedron.Parallelepiped", "dependent v2, v3", "a parallelepiped with dependent edge vectors must be rejected",
             inputs_all={"v2", "v3"}, eps=True),
     GuardOb("Pyramid.__init__", "apex in base plane", "a pyramid whose apex lies in its base plane must be rejected",
-            inputs_all={"p", "cp"}, eps=True),
+            inputs_all={"p", "cp"}, eps=True, container_type="Plane"),
     GuardOb("ConvexPolyhedron.__init__", "outward normals", "a face set that is not a closed convex polyhedron must be rejected (normal check)",
             inputs_all={"self.center_point", "self.convex_polygons"}, eps=True),
     GuardOb("ConvexPolyhedron.__init__", "closedness (Euler)", "a face set that is not a closed polyhedron must be rejected (Euler check)",
